@@ -144,7 +144,28 @@ func checkC01(c *Ctx) {
 			s := ds.Site
 			arg := ds.Args[1]
 			facts := ds.Facts
-			ok := strings.Contains(arg, "CommitRuler).CommitRule(") && strings.Contains(arg, ", p1)") && notNilOf(facts, is(arg))
+			nonNil := notNilOf(facts, is(arg))
+			if !nonNil {
+				// the nil test is the callee's first act: every use of commit's block parameter is under block != nil
+				fcm := NewFlow(p, commit)
+				uses, guarded := 0, true
+				eachInstr(commit, func(in ssa.Instruction) {
+					ci, isCall := in.(ssa.CallInstruction)
+					if !isCall {
+						return
+					}
+					for _, a := range ci.Common().Args {
+						if fcm.K.Key(a) == "p1" {
+							uses++
+							if !notNilOf(fcm.At(in), is("p1")) {
+								guarded = false
+							}
+						}
+					}
+				})
+				nonNil = uses > 0 && guarded
+			}
+			ok := strings.Contains(arg, "CommitRuler).CommitRule(") && strings.Contains(arg, ", p1)") && nonNil
 			c.Check(ok, "C01.5", "TryCommit: commit(CommitRule(block)) under != nil", p.Pos(s.Pos()),
 				"commit receives the non-nil result of ruler.CommitRule(block)", "commit called with "+arg+"; facts: "+join(facts.Sorted()))
 		}
@@ -248,14 +269,16 @@ func c01IterativeForm(fl *Flow, blk ssa.Value, emit ssa.Instruction) (bool, stri
 				bad = bad || ck != "p1"
 				return false
 			}
-			for _, e := range ph.Edges {
+			for i, e := range ph.Edges {
 				ek := fl.K.Key(e)
 				if ek == "p1" {
 					continue
 				}
 				// the block found under the current block's parent hash, and the append is reached only if it was found
+				// (known at the append, or on the edge that hands the found block to the next round of the walk)
+				foundKey := strings.TrimSuffix(ek, "#0") + "#1"
 				if !(strings.HasPrefix(ek, kBCGet) && strings.Contains(ek, ", "+kBlockParent+ck+"))") && strings.HasSuffix(ek, "#0")) ||
-					!trueOf(facts, is(strings.TrimSuffix(ek, "#0")+"#1")) {
+					!(trueOf(facts, is(foundKey)) || trueOf(fl.AtEdge(ph.Block().Preds[i], ph.Block()), is(foundKey))) {
 					bad = true
 				}
 			}
